@@ -169,6 +169,12 @@ static void runGrid(const Opt &o, Ev &ev) {
             }
         }
     }
+    // blocks left incomplete (fewer bytes sent than announced) followed by another item: the block is not a result item yet
+    for (size_t n : {1, 5, 12, 25, 100}) for (size_t sent = 0; sent < n; sent += (n > 12 ? n / 4 : 1)) {
+        OItem d; d.kind = O_BLOCKDATA; d.s = std::string(sent, 'p');
+        if (!run({mkHdr(n), d, mkInt(4)})) return;
+        if (!run({mkInt(3), mkHdr(n), d, mkInt(4)})) return;
+    }
     ev.exhaustive["all 10 element types x lengths 0..300 x NORMAL/SWAPPED; blocks 0..300; header-only lengths up to 999999999; every split of a streamed block of <= 12 bytes into <= 4 data calls with an over-length attempt at every point"] = true;
 }
 
@@ -186,6 +192,7 @@ static std::vector<OItem> decode(Src &s) {
                 size_t sent = 0; int pieces = 0;
                 while (true) {
                     if (s.prob(1, 4)) { OItem d; d.kind = O_BLOCKDATA; d.s = std::string(total - sent + 1 + s.range(0, 3), 'Z'); v.push_back(d); }
+                    if (pieces >= 1 && sent < total && s.prob(1, 5)) break;          // left incomplete: it does not count as a result item
                     size_t k = (pieces >= 3) ? total - sent : s.range(0, total - sent);
                     OItem d; d.kind = O_BLOCKDATA; for (size_t j = 0; j < k; j++) d.s += (char) s.range(0, 255);
                     v.push_back(d); sent += k; pieces++;
